@@ -43,7 +43,8 @@ VTensor(e) ==
   ELSE IF ~ZeroDiagonal(e) THEN "ZeroDiagonal" ELSE IF ~Antisymmetric(e) THEN "Antisymmetric"
   ELSE IF ~GenuineImage(e) THEN "GenuineImage" ELSE IF ~NeverShorterThanMic(e) THEN "NeverShorterThanMic"
   ELSE IF ~ExactWithinRange(e) THEN "ExactWithinRange" ELSE IF ~InfiniteBeyondCutoff(e) THEN "InfiniteBeyondCutoff"
-  ELSE IF ~NoInfiniteWhenUnbounded(e) THEN "NoInfiniteWhenUnbounded" ELSE "ok"
+  ELSE IF ~NoInfiniteWhenUnbounded(e) THEN "NoInfiniteWhenUnbounded"
+  ELSE IF ~e.same_as_get_distances THEN "GetDistancesIsTheSameTable" ELSE "ok"
 
 \* ---------------------------------------------------------------- C16: extended system
 ImgPos(e, im) == VAdd(e.pos[im.idx], Comb(im.fac, e.cell))
